@@ -444,6 +444,21 @@ class Builtins:
             raise Unsupported("reversed of abstract sequence")
         return SList(list(reversed(c)))
 
+    def f_map(self, pos, kw, fr):
+        fn, seq = pos[0], pos[1]
+        if len(pos) != 2:
+            raise Unsupported("map over several sequences")
+        c = self.it.iter_concrete(seq)
+        if c is not None:
+            return SList([self.it.call_value(fn, [x], {}, fr) for x in c])
+        if isinstance(seq, SList) and seq.elem is not None and isinstance(fn, SClass):
+            # map(Class, abstract list): element j is Class(seq[j]), built on access; the source list is remembered
+            out = SList(None, length=list_len(seq), fresh=True, label=f"map({fn.name})")
+            out.elem = lambda j, fn=fn, seq=seq: self.it.call_value(fn, [seq.elem(j)], {}, fr)
+            out.ghost["map_of"] = (fn.name, seq)
+            return out
+        raise Unsupported("map over " + type(seq).__name__)
+
     def f_filter(self, pos, kw, fr):
         pred, seq = pos
         c = self.it.iter_concrete(seq)
@@ -762,12 +777,42 @@ class Builtins:
             out.ghost["rec_fields"] = fields
             out.ghost["rec_other"] = other
             out.elem = lambda k, out=out: L.rec_elem(cx, out, k)
+            # [Cls(x) for x in <sequence of identities>]: a wrapper object per element, like map(Cls, seq)
+            if "seq" in src.ghost and len(val.fields) == 1:
+                (only,) = val.fields.values()
+                if isinstance(only, SObj) and getattr(only, "ident", None) is not None and z3.eq(only.ident, src.ghost["seq"][j]):
+                    out.ghost["map_of"] = (val.cls, src)
             return out
         if isinstance(val, (SOpaque, SList, tuple)) or val is None:
             return SList(None, length=length, elem=None, fresh=True, label="comp-opaque")
         raise Unsupported(f"comprehension element of type {type(val).__name__}")
 
+    def flatten_of_containers(self, comp, rest, fr):
+        """sum([c.get_trees() for c in <list of containers>], []) over a container list that is tracked by the sequence it
+        flattens to: that sequence (exact: the ghost `flat` of such a list is defined as this concatenation)"""
+        if len(comp.generators) != 1 or comp.generators[0].ifs or len(rest) != 1:
+            return None
+        g = comp.generators[0]
+        start = rest[0]
+        if not (isinstance(start, ast.List) and not start.elts and isinstance(g.target, ast.Name)):
+            return None
+        e = comp.elt
+        if not (isinstance(e, ast.Call) and not e.args and not e.keywords and isinstance(e.func, ast.Attribute) and e.func.attr == "get_trees"
+                and isinstance(e.func.value, ast.Name) and e.func.value.id == g.target.id):
+            return None
+        src = self.it.ev(g.iter, fr)
+        if not (isinstance(src, SList) and "flat" in src.ghost and "flat_make" in src.ghost):
+            return ("src", src)
+        return ("ok", src.ghost["flat_make"](src.ghost["flat"]))
+
     def consume_comprehension(self, fname: str, comp, rest, fr):
+        if fname == "sum":
+            r = self.flatten_of_containers(comp, rest, fr)
+            if r is not None and r[0] == "ok":
+                return r[1]
+            if r is not None:
+                # the source was evaluated once already; evaluating it again would duplicate its effects
+                raise Unsupported("sum of get_trees() over a container list that is not tracked by its flattening")
         mode, src, g = self.generic_element(comp, fr)
         if mode == "concrete" or fname in ("list", "tuple"):
             lst = self.comprehension(comp, fr, "list")
